@@ -1,22 +1,12 @@
 (* C14, known findings of the pinned tree as refutation lemmas over the regenerated tables (they stop compiling when the
-   code is repaired; the check then records a stale finding instead of alarming). *)
+   code is repaired; the check then records a stale finding instead of alarming).
+   Retired after fix 913f0a4 (now theorems of Properties/C14.v: locality_table_sound covers builtin calls and Convert,
+   check_escape_checks_builtins): locality_uncovered_refuted, locality_convert_refuted, check_escape_skips_calls_refuted. *)
 From Coq Require Import List Bool String.
 From Argot Require Import Model.EscTable.
 From ArgotGen Require Import GenLocality.
 Import ListNotations.
 Open Scope string_scope.
-
-(* builtin calls (copy/append/delete/clear/len) and string([]byte) dereference their operands but are always Local *)
-Theorem locality_uncovered_refuted :
-  exists k, In k ["Call"; "Convert"] /\ table_verdict locality_table locality_default k "" = LLocal.
-Proof. exists "Call"; split; [left; reflexivity | vm_compute; reflexivity]. Qed.
-
-Theorem locality_convert_refuted : table_verdict locality_table locality_default "Convert" "" = LLocal.
-Proof. vm_compute; reflexivity. Qed.
-
-(* and the taint visitor skips call instructions when it consults the locality map *)
-Theorem check_escape_skips_calls_refuted : check_escape_skips_calls = true.
-Proof. vm_compute; reflexivity. Qed.
 
 (* deferred calls have no transfer function *)
 Theorem transfer_defer_refuted : exists k, In k transfer_required_defer /\ handled transfer_table k = false.
